@@ -248,23 +248,36 @@ fn stamp(pkt: &Pkt, tag: u32) -> Pkt {
         }
         Pkt::Subscribe(s) => {
             let mut s = s.clone();
-            for sub in s.subscriptions.iter_mut() { sub.topic_filter = format!("{}/{}", sub.topic_filter, tag); }
+            for sub in s.subscriptions.iter_mut() { sub.topic_filter = stamp_filter(&sub.topic_filter, tag); }
             Pkt::Subscribe(s)
         }
         Pkt::Unsubscribe(u) => {
             let mut u = u.clone();
-            for f in u.topic_filters.iter_mut() { *f = format!("{}/{}", f, tag); }
+            for f in u.topic_filters.iter_mut() { *f = stamp_filter(f, tag); }
             Pkt::Unsubscribe(u)
         }
         other => other.clone(),
     }
 }
 
+/// the tag becomes the first level of the filter (after "$share/<group>/" if present) so that wildcards stay legal
+fn stamp_filter(filter: &str, tag: u32) -> String {
+    if let Some(rest) = filter.strip_prefix("$share/") {
+        if let Some((group, tail)) = rest.split_once('/') { return format!("$share/{}/{}/{}", group, tag, tail); }
+    }
+    format!("{}/{}", tag, filter)
+}
+
+fn tag_of_filter(filter: &str) -> Option<u32> {
+    let rest = match filter.strip_prefix("$share/") { Some(r) => r.split_once('/').map(|(_, t)| t)?, None => filter };
+    rest.split('/').next()?.parse().ok()
+}
+
 pub fn tag_of_wire(pkt: &Pkt) -> Option<u32> {
     match pkt {
         Pkt::Publish(p) => p.payload.as_ref().and_then(|b| if b.len() >= 2 && b[0] == b'#' { Some(b[1] as u32) } else { None }),
-        Pkt::Subscribe(s) => s.subscriptions.first().and_then(|f| f.topic_filter.rsplit('/').next()?.parse().ok()),
-        Pkt::Unsubscribe(u) => u.topic_filters.first().and_then(|f| f.rsplit('/').next()?.parse().ok()),
+        Pkt::Subscribe(s) => s.subscriptions.first().and_then(|f| tag_of_filter(&f.topic_filter)),
+        Pkt::Unsubscribe(u) => u.topic_filters.first().and_then(|f| tag_of_filter(f)),
         _ => None,
     }
 }
@@ -661,6 +674,44 @@ impl World {
         if let (Some(alias), false) = (wire.topic_alias, wire.topic.is_empty()) { self.phantom_aliases.remove(&alias); }
     }
 
+    /// reference predicate: which announced limit / static rule does this client->server packet break (None = conforms)
+    pub fn limit_violation(&self, pkt: &Pkt, connection: usize) -> Option<&'static str> {
+        let t = self.cfg.connack_for(connection);
+        let v5 = !self.cfg.mqtt311;
+        let max_size = if v5 { t.maximum_packet_size.unwrap_or(268_435_455) as usize } else { 268_435_455 };
+        let size = crate::refcodec::encode(pkt, self.cfg.mqtt311).map(|b| b.len()).unwrap_or(usize::MAX);
+        match pkt {
+            Pkt::Publish(p) => {
+                if p.topic.contains('#') || p.topic.contains('+') { return Some("publish to a wildcard topic"); }
+                if v5 && p.qos > t.maximum_qos.unwrap_or(2) { return Some("qos above the server's maximum"); }
+                if v5 && p.retain && t.retain_available == Some(false) { return Some("retain although unavailable"); }
+            }
+            Pkt::Subscribe(s) => {
+                if s.subscriptions.is_empty() { return Some("empty subscription list"); }
+                for sub in &s.subscriptions {
+                    let shared = sub.topic_filter.starts_with("$share/");
+                    let wildcard = sub.topic_filter.contains('#') || sub.topic_filter.contains('+');
+                    if v5 && wildcard && t.wildcard_subscriptions_available == Some(false) { return Some("wildcard filter although unavailable"); }
+                    if v5 && shared && t.shared_subscriptions_available == Some(false) { return Some("shared subscription although unavailable"); }
+                }
+                if v5 && s.subscription_identifier.is_some() && t.subscription_identifiers_available == Some(false) { return Some("subscribe with subscription identifier although server announced unavailable"); }
+            }
+            Pkt::Unsubscribe(u) => { if u.topic_filters.is_empty() { return Some("empty filter list"); } }
+            _ => {}
+        }
+        if matches!(pkt, Pkt::Publish(_) | Pkt::Subscribe(_) | Pkt::Unsubscribe(_) | Pkt::Disconnect(_)) && size > max_size { return Some("packet larger than server maximum packet size"); }
+        None
+    }
+
+    fn check_limits_on_wire(&mut self, pkt: &Pkt) {
+        let ci = self.conn_index();
+        if !self.conn.as_ref().map(|c| c.connack_ok_processed).unwrap_or(false) { return; }
+        if let Some(what) = self.limit_violation(pkt, ci) {
+            let signature = if what.starts_with("subscribe with subscription identifier") { what.to_string() } else { format!("{} transmitted", what) };
+            self.violate("C16", signature, format!("{} on connection {} whose CONNACK was {:?}", short(pkt), ci, self.cfg.connack_for(ci)));
+        }
+    }
+
     fn op_mut(&mut self, tag: u32) -> Option<&mut OpRec> { self.ops.get_mut(tag as usize) }
 
     fn on_emitted_packet(&mut self, pkt: Pkt) {
@@ -707,6 +758,8 @@ impl World {
             }
             _ => {}
         }
+        // ---- C16: announced limits
+        self.check_limits_on_wire(&pkt);
         // ---- user operations on the wire
         match &pkt {
             Pkt::Publish(p) => self.on_wire_publish(p.clone(), ci),
@@ -740,7 +793,7 @@ impl World {
     }
 
     pub fn negotiated_keep_alive(&self) -> u64 {
-        let server = if self.cfg.mqtt311 { None } else { self.cfg.connack.server_keep_alive };
+        let server = if self.cfg.mqtt311 { None } else { self.cfg.connack_for(self.conns_opened).server_keep_alive };
         server.or(self.cfg.keep_alive).unwrap_or(0) as u64
     }
 
@@ -798,7 +851,7 @@ impl World {
         // ---- C17 outbound alias check (reference server-side table)
         let mut effective_topic = p.topic.clone();
         {
-            let alias_max = self.cfg.connack.topic_alias_maximum.unwrap_or(0);
+            let alias_max = self.cfg.connack_for(self.conns_opened).topic_alias_maximum.unwrap_or(0);
             let phantom = p.topic_alias.and_then(|a| self.phantom_aliases.get(&a).cloned());
             let conn = self.conn.as_mut().unwrap();
             match p.topic_alias {
